@@ -15,6 +15,7 @@ import (
 	"runtime"
 	"strings"
 	"sync"
+	"sync/atomic"
 	"testing"
 	"time"
 
@@ -78,7 +79,7 @@ func TestRaceStress(t *testing.T) {
 	seed := uint64(envInt("VERIF_SEED", 1))
 	budget := time.Duration(envInt("VERIF_BUDGET_MS", 30000)) * time.Millisecond
 	start := time.Now()
-	rounds, accepted, conflicts := 0, 0, 0
+	rounds, accepted, conflicts, storeRounds := 0, 0, 0, 0
 	for round := uint64(0); time.Since(start) < budget; round++ {
 		r := NewRng(runSeed(seed, "C05race", round))
 		p := &Plan{Seed: r.Uint64(), Cfg: Config{Dense: 64, WitKeys: []string{"ed:0", "cosig:0"}}}
@@ -185,6 +186,41 @@ func TestRaceStress(t *testing.T) {
 				}
 			}
 		}
+		// the store itself, hammered directly (in-memory store only: the SQL store's one connection admits one write handle at
+		// a time): writers take their handles and read the same state, wait at a spin barrier, then all call Set at once. The
+		// handle is "an ACID transaction": of the transactions that read one state at most one can commit.
+		if db == nil {
+			for sr := 0; sr < 60; sr++ {
+				id := fmt.Sprintf("storelevel-%d", sr%3)
+				const nw = 4
+				var ready, okN atomic.Int32
+				var swg sync.WaitGroup
+				for k := 0; k < nw; k++ {
+					swg.Add(1)
+					go func(k int) {
+						defer swg.Done()
+						wo, err := inner.WriteOps(id)
+						if err != nil {
+							ready.Add(1)
+							return
+						}
+						defer wo.Close()
+						_, _ = wo.GetLatest()
+						ready.Add(1)
+						for ready.Load() < nw {
+						}
+						if wo.Set([]byte(fmt.Sprintf("round %d writer %d", sr, k))) == nil {
+							okN.Add(1)
+						}
+					}(k)
+				}
+				swg.Wait()
+				storeRounds++
+				if okN.Load() > 1 {
+					t.Fatalf("C05 race stress: %d of %d writers that had read the same state of %q all committed (store-level round %d): the compare and the write of the in-memory store are not one critical section", okN.Load(), nw, id, sr)
+				}
+			}
+		}
 		// C20 under real parallelism: the production metrics backend (monitoring/prometheus) and the harness's own recording
 		// factory received exactly the same increments, so per label they must agree (a backend that books an increment under
 		// another log's label when two increments overlap does not)
@@ -200,7 +236,7 @@ func TestRaceStress(t *testing.T) {
 		}
 		rounds++
 	}
-	fmt.Printf("RACESTRESS rounds=%d accepted=%d conflicts=%d wall=%.1fs\n", rounds, accepted, conflicts, time.Since(start).Seconds())
+	fmt.Printf("RACESTRESS rounds=%d accepted=%d conflicts=%d store_level_rounds=%d wall=%.1fs\n", rounds, accepted, conflicts, storeRounds, time.Since(start).Seconds())
 }
 
 // backendDisagreement compares, for every single-label counter, the value held by the Prometheus registry with the number of
